@@ -18,6 +18,10 @@ FAIL = "<FAIL>"
 ALWAYS = "//ALWAYS"
 
 
+class Killed(Exception):
+    """the simulated command is SIGKILLed (whole tree) at a kill point inside a script"""
+
+
 def candidates(name: str) -> List[tuple]:
     """Candidate .do files for a flat target name, highest priority first: (dofile, arg2)."""
     out = [(name + ".do", name)]
@@ -47,6 +51,7 @@ class Model:
         self.kind_at_build: Dict[str, str] = {}
         self.override: Dict[str, bool] = {}           # generated file since edited/replaced by the user
         self.known: set = set()                       # names redo has a Files row for (model's belief)
+        self.interrupted: set = set()                 # targets whose script was running when the whole tree was killed
         for s, alpha in world.sources.items():
             if s in world.absent:
                 self.content[s] = None
@@ -269,6 +274,11 @@ class RefBuild:
                     r = max(r, self.will_change(d, memo, stack + (X,)))
                     if r == self.YES:
                         break
+        if r == self.NO and X in m.interrupted:
+            # slack S3: a target whose build was interrupted by a kill may be re-run by the next build even if
+            # nothing it depends on changed (redo cannot know how far the script got); it MUST be re-run
+            # whenever the rules above say so.
+            r = self.MAYBE
         memo[X] = r
         return r
 
@@ -364,9 +374,12 @@ class RefBuild:
                 self.stale_csums_in_closure(d, acc, memo, visited)
 
     # ---- simulation ---------------------------------------------------------
-    def run(self, cmd, targets, keep_going=False, observed=()):
+    def run(self, cmd, targets, keep_going=False, observed=(), kill=None):
         """cmd in {'ifchange','redo'}. `observed` = names the implementation was seen to execute; it is
-        consulted only to resolve MAYBE decisions. Returns dict(ok, ran, ambiguous, slack)."""
+        consulted only to resolve MAYBE decisions. `kill` = (target, position): the whole tree is killed when
+        that target's script reaches that position (see worlds.script_text). Returns dict(ok, ran, ambiguous, slack)."""
+        self.kill = tuple(kill) if kill else None
+        self.killed = False
         self.observed = set(observed)
         self.slack = []
         self.seq_results = {}
@@ -378,9 +391,20 @@ class RefBuild:
         self.reasons = {}
         self.keep_going = keep_going
         ok = True
-        ok = self.request_list(list(targets), forced=(cmd == "redo"))
+        try:
+            ok = self.request_list(list(targets), forced=(cmd == "redo"))
+        except Killed:
+            ok = False
+            self.killed = True
+            for X, st in self.done.items():
+                if st == "running":
+                    self.m.interrupted.add(X)
         return {"ok": ok, "ran": list(self.ran), "ambiguous": self.ambiguous, "slack": list(self.slack),
-                "overbuilt": list(self.overbuilt), "seq": dict(self.seq_results)}
+                "overbuilt": list(self.overbuilt), "seq": dict(self.seq_results), "killed": self.killed}
+
+    def kill_point(self, X, pos):
+        if self.kill is not None and self.kill == (X, str(pos)):
+            raise Killed()
 
     def request_list(self, names, forced=False, parent=None):
         """One redo / redo-ifchange invocation naming `names`, processed left to right."""
@@ -515,7 +539,9 @@ class RefBuild:
             newseen[ALWAYS] = ("m", 0)
         self.done[X] = "running"
         okay = True
-        for kind, payload in m.script_deps(X, spec):
+        groups = m.script_deps(X, spec)
+        for gi, (kind, payload) in enumerate(groups):
+            self.kill_point(X, gi)
             if kind == "m":
                 for d in payload:
                     # dependency edges are recorded before the dependencies are built
@@ -580,8 +606,11 @@ class RefBuild:
             m.failed[X] = True
             m.built[X] = m.built.get(X, False)
             self.done[X] = "fail"
+            m.interrupted.discard(X)
             # a failed build leaves the previous file in place
             return False
+        self.kill_point(X, len(groups))
+        self.kill_point(X, "e")
         v = m.evaluate(X, shallow=True)
         if v is FAIL:
             # only possible in cyclic graphs (a dependency was answered "clean" from inside its own build);
@@ -607,5 +636,6 @@ class RefBuild:
             m.digest.pop(X, None)
         if changed:
             m.bump(X)
+        m.interrupted.discard(X)
         self.done[X] = "ok"
         return True
